@@ -465,6 +465,11 @@ func (g *sgen) fields(n *gnode) {
 			if f.Syntax == "proto3" {
 				x.HD, x.Def = false, ""
 			}
+			// members sharing a JSON name are legal for protodesc: keyed lookups of the oneof must stay first-wins
+			if k := len(n.m.Fields); k > 0 && n.m.Fields[k-1].Oneof == inOneof && g.p(1, 3) {
+				n.m.Fields[k-1].HJ, n.m.Fields[k-1].JSON = true, "sameJson"
+				x.HJ, x.JSON = true, "sameJson"
+			}
 			n.m.Fields = append(n.m.Fields, x)
 		default:
 			x := g.field(n, n.full, n.ef, name, num, false)
